@@ -89,6 +89,7 @@ def table_seeded():
     res = {r["name"]: r for r in json.load(open(path))} if os.path.exists(path) else {}
     rows = ["| seeded change | what it changes / needs (from its notes) | caught by (labels, quick tier) | first run |", "|---|---|---|---|"]
     n = c = first = 0
+    obsolete_first = [0, 0]
     for d in sorted(glob.glob(os.path.join(HERE, "seeded", "C*"))):
         name = os.path.basename(d)
         meta = json.load(open(os.path.join(d, "meta.json")))
@@ -97,12 +98,18 @@ def table_seeded():
         labels = ", ".join(chk.get("labels", [])[:4]) or "-"
         title = next((l for l in meta.get("needs_to_manifest", "").splitlines() if l.strip()), "")
         summary = meta.get("summary") or re.sub(r"^#+\s*", "", title).replace("|", "/")[:170]
+        if meta.get("obsolete"):
+            rows.append(f"| {name} | {summary} | (obsolete: neutralised by a later repair of /repo, see meta.json) | "
+                        + ("missed: " + INITIALLY_MISSED[name] if name in INITIALLY_MISSED else "caught") + " |")
+            obsolete_first[0] += name not in INITIALLY_MISSED
+            obsolete_first[1] += 1
+            continue
         n += 1
         c += bool(r.get("caught"))
         fr = "missed: " + INITIALLY_MISSED[name] if name in INITIALLY_MISSED else ("caught" if r.get("caught") else "MISSED")
         first += name not in INITIALLY_MISSED and bool(r.get("caught"))
         rows.append(f"| {name} | {summary} | {labels if r.get('caught') else 'MISSED'} | {fr} |")
-    rows.append(f"| total {n} | | caught now: {c}/{n} | caught on first run: {first}/{n} |")
+    rows.append(f"| total {n} (+{obsolete_first[1]} obsolete) | | caught now: {c}/{n} | caught on first run: {first}/{n} (obsolete ones: {obsolete_first[0]}/{obsolete_first[1]}) |")
     return "\n".join(rows)
 
 
